@@ -53,6 +53,7 @@ public:
   bool IsQCP() const override { return st_.n_quad > 0; }
   void SetInterrupter(mp::Interrupter *) override { rec_fault("extras"); }
   void Solve() override;
+  void InputExtras() override;   // C04 (RECSOLVER_C04): presolve of the model suffixes funcpieces / c04int is logged
 protected:
   ArrayRef<double> PrimalSolution() override;
   pre::ValueMapDbl DualSolution() override;
